@@ -31,10 +31,10 @@ def shard_scc(shard, nshards, tier, seed):
         eng = symx.Engine(assumptions=fixed + [P >= 0, P < nperm])
 
         def body():
-            edges = [[i, j] for (i, j) in bits if symx.branch(E[(i, j)])]
+            edges = [[i, j] for bi, (i, j) in enumerate(bits) if symx.branch(E[(i, j)], free=bi >= k)]
             if sym_order:
-                order = list(perms[symx.choose(P, 0, nperm)])
-                rev = [symx.branch(r) for r in R]
+                order = list(perms[symx.choose(P, 0, nperm, free=True)])
+                rev = [symx.branch(r, free=True) for r in R]
             else:
                 order = list(range(n))
                 rev = [False] * n
@@ -56,16 +56,22 @@ def shard_scc(shard, nshards, tier, seed):
     return col.result(symx.STATS)
 
 
+MUTATIONS = [['add_rule', 'S', 'N'], ['add_rule', 'X', 'S'], ['add_rule', 'N', 'X'], ['rhs_add_edge', 0, 'N'], ['rhs_add_edge', 1, 'X'],
+             ['set_start', 'N'], ['set_start', 'X'], ['add_label', 'N']]
+
+
 def shard_nt(shard, nshards, tier, seed):
     """HRGs over nonterminals S,X,Y (arity 0) and one terminal t: which of up to
     R rules exist, their lhs and the labels of up to 2 rhs edges are symbolic ints."""
     col = lib.Collector()
-    R = 2 if tier == 'quick' else 3
+    R = 2
     labels = c19_run.NTS + ['t']
     lhs = [z3.Int(f'lhs{r}') for r in range(R)]          # 0..2, or 3 = rule absent
     lab = [[z3.Int(f'lab{r}_{e}') for e in range(2)] for r in range(R)]   # 0..3 label, 4 = no edge
     decl = [z3.Bool(f'decl_{x}') for x in c19_run.NTS[1:]]
-    assume = []
+    MK, MW, MX = z3.Int('mut_kind'), z3.Int('mut_who'), z3.Int('mut_what')
+    muts = MUTATIONS if tier != 'quick' else [MUTATIONS[0], MUTATIONS[3], MUTATIONS[5], MUTATIONS[7]]
+    assume = [MK >= 0, MK < len(muts)]
     for r in range(R):
         assume += [lhs[r] >= 0, lhs[r] <= 3]
         for e in range(2):
@@ -79,14 +85,18 @@ def shard_nt(shard, nshards, tier, seed):
         def body():
             rules = []
             for r in range(R):
-                l = symx.choose(lhs[r], 0, 4)
-                es = [symx.choose(lab[r][e], 0, 5) for e in range(2)]
+                l = symx.choose(lhs[r], 0, 4, free=r > 0)
+                es = [symx.choose(lab[r][e], 0, 5, free=(r, e) != (0, 0)) for e in range(2 if (r == 0 or tier != 'quick') else 1)]
                 if l == 3:
                     continue
                 rules.append([c19_run.NTS[l], [labels[x] for x in es if x < 4]])
-            declared = [x for x, d in zip(c19_run.NTS[1:], decl) if symx.branch(d)]
+            declared = [x for x, d in zip(c19_run.NTS[1:], decl) if symx.branch(d, free=True)]
             spec = {'start': 'S', 'rules': rules, 'declared': declared}
-            return spec, c19_run.run_ntgraph(spec)
+            msg = c19_run.run_ntgraph(spec)
+            # history: query, mutate through the public API, query again (symbolic choice of the mutation)
+            mutation = muts[symx.choose(MK, 0, len(muts), free=True)]
+            hmsg = c19_run.run_ntgraph_history(spec, mutation)
+            return spec, msg, mutation, hmsg
         with lib.Functions() as fns:
             paths = eng.run(body)
         col.functions |= fns.names
@@ -94,11 +104,14 @@ def shard_nt(shard, nshards, tier, seed):
             if p.exc is not None:
                 col.violation('ntgraph', {'entry': 'nonterminal_graph', 'exception': type(p.exc).__name__}, {'spec': None}, note=repr(p.exc))
                 continue
-            spec, msg = p.value
-            col.case(('nt', repr(spec)), nontrivial=len(spec['rules']) > 0, sample=spec)
+            spec, msg, mutation, hmsg = p.value
+            col.case(('nt', repr(spec), repr(mutation)), nontrivial=len(spec['rules']) > 0, sample={'spec': spec, 'then': mutation})
             col.check(not msg)
             if msg:
                 col.violation('ntgraph', {'entry': 'nonterminal_graph'}, {'spec': spec}, note=msg)
+            col.check(not hmsg)
+            if hmsg:
+                col.violation('nthistory', {'entry': 'nonterminal_graph', 'history': mutation[0]}, {'spec': spec, 'mutation': mutation}, note=hmsg)
     return col.result(symx.STATS)
 
 
